@@ -12,7 +12,7 @@ CASES = {'quick': 4000, 'thorough': 120000}
 SMALL_BLOCKS = 4      # runner: every 4th case keeps its stores in 2..10-token blocks
 GATES = {
     'quick': {'cases_in_small_blocks': 50, 'evaluations': 12000, 'parsed_values': 6000, 'applications': 5000, 'attached_operand_applications': 600,
-              'forms_seen': 10, 'zero_constant_operands': 200, 'independence_checks': 3000, 'chains_ge3': 400, 'results_needing_parens': 300},
+              'forms_seen': 11, 'form:inplace_self': 150, 'zero_constant_operands': 200, 'independence_checks': 3000, 'chains_ge3': 400, 'results_needing_parens': 300},
     'thorough': {'evaluations': 400000, 'forms_seen': 10},
 }
 RULE = ('case = two random expression texts (depth <=4, arbitrary spacing, redundant parentheses, thousands separators) parsed as '
@@ -52,7 +52,7 @@ def ev(s):
             return v
         if t in '+-':
             v = atom()
-            return v if t == '+' else -v
+            return v if t == '+' else (v.copy_negate() if v else -v)      # a sign is not arithmetic: no context rounding
         return D(t.replace(',', ''))
 
     def mul():
@@ -79,6 +79,10 @@ def ev(s):
 def rexpr(r, d=0):
     k = r.random()
     if d > 3 or k < 0.4:
+        if r.random() < 0.12:
+            # more significant digits than the decimal context keeps, some of them nearly equal (sums that cancel)
+            return r.choice(['1234567890.5', '1234567891.12345678901234567890', '0.1234567890123456789012345678901234',
+                             '98765432109876543210987654321098765', '1234567891.12345678901234567891', '1.2345678901234567890123456789'])
         return r.choice(['1', '2', '3.5', '1,000', '0.25', '7.', '12', '0.1', '99'])
     if k < 0.5:
         return r.choice('+-') + r.choice(['', ' ']) + rexpr(r, d + 1)
@@ -166,7 +170,7 @@ def run_case(col, r, idx):
     nsteps = r.randint(1, 6)
     for step in range(nsteps):
         o = r.choice('+-*/')
-        form = r.choice(['plain', 'plain', 'plain', 'rint', 'rdec', 'int', 'dec', 'inplace', 'inplace_num', 'neg', 'pos', 'self'])
+        form = r.choice(['plain', 'plain', 'plain', 'rint', 'rdec', 'int', 'dec', 'inplace', 'inplace_num', 'neg', 'pos', 'self', 'inplace_self'])
         ti = r.randrange(3)
         other = None
         try:
@@ -176,14 +180,14 @@ def run_case(col, r, idx):
                     continue
                 exp = OPS[o](acc.value, other.value)
             elif form in ('rint', 'rdec'):
-                c = r.choice([3, 3, 0, 1, -2]) if form == 'rint' else r.choice([D('-2.5'), D('-2.5'), D('0'), D('0.00'), D('1')])
+                c = r.choice([3, 3, 0, 1, -2]) if form == 'rint' else r.choice([D('-2.5'), D('-2.5'), D('0'), D('0.00'), D('1'), D('-1.23456789012345678901234567890123'), D('1234567891.12345678901234567890')])
                 if o == '/' and acc.value == 0:
                     continue
                 if c == 0:
                     col.count('zero_constant_operands')
                 exp = OPS[o](D(c), acc.value)
             elif form in ('int', 'dec', 'inplace_num'):
-                c = r.choice([4, 4, 0, 1, -3]) if form != 'dec' else r.choice([D('0.5'), D('0.5'), D('0'), D('0.00'), D('1.0')])
+                c = r.choice([4, 4, 0, 1, -3]) if form != 'dec' else r.choice([D('0.5'), D('0.5'), D('0'), D('0.00'), D('1.0'), D('-1.23456789012345678901234567890123'), D('1234567891.12345678901234567890')])
                 if o == '/' and c == 0:
                     continue
                 if c == 0:
@@ -197,14 +201,14 @@ def run_case(col, r, idx):
                     continue
                 exp = OPS[o](acc.value, other.value)
             elif form == 'neg':
-                exp = -acc.value
-            elif form == 'self':
-                # the same expression object on both sides: e + e, e * e, ...
+                exp = acc.value.copy_negate() if acc.value else -acc.value       # signs are exact (no context rounding)
+            elif form in ('self', 'inplace_self'):
+                # the same expression object on both sides: e + e, e * e, ... and e += e, e *= e, ...
                 if o == '/' and acc.value == 0:
                     continue
                 exp = OPS[o](acc.value, acc.value)
             else:
-                exp = +acc.value
+                exp = acc.value
         except ARITH_EXC:
             continue
         a_before = acc.snap()
@@ -212,7 +216,7 @@ def run_case(col, r, idx):
         desc = (form, o, texts[ti] if other is not None else None, acc.kind, other.kind if other else None)
         chain.append(desc)
         wit = {'texts': texts, 'chain': chain, 'left': a_before[0], 'right': b_before[0] if b_before else None}
-        inplace = form in ('inplace', 'inplace_num')
+        inplace = form in ('inplace', 'inplace_num', 'inplace_self')
         try:
             if form == 'plain':
                 res = OPS[o](acc.expr, other.expr)
@@ -228,6 +232,8 @@ def run_case(col, r, idx):
                 res = -acc.expr
             elif form == 'self':
                 res = OPS[o](acc.expr, acc.expr)
+            elif form == 'inplace_self':
+                res = IOPS[o](acc.expr, acc.expr)
             else:
                 res = +acc.expr
         except Exception as ex:
